@@ -19,7 +19,7 @@ for k in os.environ.get("XSG_PENDING", "").split():
 CHECKS = {
  "C01": dict(tech="deterministic simulation: seeded histories over replicas with varied entropy / channel / failed-then-retried deliveries; document-against-schema validator as invariant after every delivery",
    text="Seeded search over delivery histories and environments. After every delivery each replica's rendered schema (observed through the public API and a strict parser of the output) must admit every document delivered so far, checked by an independent validator on the generator's DOMs. The state the property depends on (occurrence counters, standalone flags, internal child order) is what entropy, chunking and failed deliveries touch. Sampling, not proof.",
-   ref="DESIGN.md §2.4-2.6, §3 C01", note="Trusted: generated DOM == reader's view (cross-checked every run); a field counts as bound if its serde name equals the local or the full XML name. C01's precondition is enforced per schema position; violating draws are discarded and counted."),
+   ref="DESIGN.md §2.4-2.6, §3 C01", note="Trusted: generated DOM == reader's view (cross-checked every run); a field counts as bound if its serde name is the one the quick-xml preset documents (local name for elements, `@` + local name for attributes, `xmlns:*` keeps its prefix). C01's precondition is enforced per schema position; violating draws are discarded and counted."),
  "C03": dict(tech="deterministic simulation: seeded histories over replicas; observation compared with an executable reference model after every delivery",
    text="Same sessions as C01, equality oracle: after every delivery the observation equals infer(DOMs delivered so far) - same fields by XML name, same Option / Vec / String typing, same text flag, and the whole-tree rendering is exactly one struct per non-String position. The reference model is ~80 lines straight from the statement. Sampling, not proof.",
    ref="DESIGN.md §2.6, §3 C03", note="Trusted: the reference model (definition in the statement); attributes compared by bound serde name; String-typing is not compared for elements literally named 'string' (ambiguous in the rendered text)."),
